@@ -124,7 +124,9 @@ class Ctx:
 
 class Contract:
     def __init__(self, qname, prop, pre=None, post=None, assigns=None, safety=(), use=(), signature=None, name=None,
-                 canary=True, unroll=None, setup=None, max_depth=None, name_locals=0, safety_via=None, relational=(), frame=None, on_call=None, ret_model=None, assumed=False, lambda_ordinal=None, slice_loop=None, prefix_loop=None, split_heap_ifs=False, var_lambda=None):
+                 canary=True, unroll=None, setup=None, max_depth=None, name_locals=0, safety_via=None, relational=(), frame=None, on_call=None, ret_model=None, assumed=False, lambda_ordinal=None, slice_loop=None, prefix_loop=None, split_heap_ifs=False, var_lambda=None, captures=None, throws=()):
+        self.captures = captures
+        self.throws = list(throws)        # used as a callee: classes of the exceptions the call may raise (after its frame effect)
         self.qname = qname; self.prop = prop; self.pre = pre; self.post = post; self.assigns = assigns
         self.safety = set(safety); self.use = list(use); self.signature = signature
         self.name = name or qname; self.name_locals = name_locals; self.safety_via = safety_via; self.relational = list(relational); self.frame = frame; self.on_call = on_call; self.ret_model = ret_model; self.assumed = assumed; self.lambda_ordinal = lambda_ordinal; self.slice_loop = slice_loop; self.prefix_loop = prefix_loop; self.split_heap_ifs = split_heap_ifs; self.var_lambda = var_lambda; self.canary = canary; self.unroll = unroll; self.setup = setup; self.max_depth = max_depth
@@ -169,6 +171,7 @@ class Contract:
         if len(ds) != 1:
             raise Unsupported('contract %s: %d matching definitions in the current tree' % (self.name, len(ds)))
         d = ds[0]
+        self.outer_decl = d
         if self.lambda_ordinal is not None:
             lams = []
             def visit(x):
@@ -193,6 +196,7 @@ class Contract:
         # by-reference value parameters are l-values into the caller's env: make them readable through Ctx.val
         pre_state = st.clone()
         C = Ctx(eng, d, args, this, pre_state)
+        C.caller_this = fr.this.ref if isinstance(fr.this, ObjLV) else fr.this
         callee = self.name
         for item in (self.pre(C) if self.pre else []):
             eng.obligations.append(Obligation('call-requires:%s:%s' % (callee, item[0]), st.pc, item[1], 'call', eng.where(n, fr), info={'fn': fr.qname}))
@@ -216,6 +220,9 @@ class Contract:
                 for r in refs:
                     arr = z3.Store(arr, r, eng.fresh(key + '!c', arr.sort().range()))
                 st.heap[key] = arr
+        for cls_ in self.throws:
+            sx = st.clone()
+            st.throws.append((sx, cls_, n))
         # result
         rt = TY.parse(d['type']['qualType'].split('(')[0].strip()) if d.get('kind') != 'CXXConstructorDecl' else TY.parse('void')
         ret = None
@@ -232,8 +239,10 @@ class Contract:
 
 
 class LoopContract:
-    def __init__(self, qname, ordinal, invariant, modifies=(), decreases=None, name=None, keep=(), keep_keys=()):
+    def __init__(self, qname, ordinal, invariant, modifies=(), decreases=None, name=None, keep=(), keep_keys=(), keep_at=()):
         self.keep_keys = list(keep_keys)
+        # with modifies=['*']: (heap key, refs_fn) pairs whose entries at those references the loop leaves unchanged (checked)
+        self.keep_at = list(keep_at)
         self.qname = qname; self.ordinal = ordinal; self.invariant = invariant; self.modifies = list(modifies)
         self.decreases = decreases; self.name = name or ('loop%s' % ordinal); self.keep = set(keep)
 
@@ -295,6 +304,13 @@ class LoopContract:
             v = st.env[vid]
             if isinstance(v, LVS): continue     # references / objects: contents live in the heap
             st.env[vid] = self.havoc_value(eng, v, eng.var_names.get(vid, 'v'))
+            d_ = eng.ast.by_id.get(vid) if isinstance(vid, str) else None
+            if d_ is not None and is_z3(st.env[vid]) and z3.is_int(st.env[vid]):
+                t_ = TY.parse(d_.get('type', {}).get('desugaredQualType') or d_.get('type', {}).get('qualType') or 'void').noref()
+                if t_.kind == 'int':
+                    lo_, hi_ = TY.INT_RANGES[t_.name]
+                    st.pc.append(z3.And(st.env[vid] >= lo_, st.env[vid] <= hi_))      # a variable holds a value of its type
+        st.ghost['kept_at'] = []
         for key in self.modifies:
             if isinstance(key, tuple):
                 k_, fn_ = key
@@ -305,12 +321,23 @@ class LoopContract:
                 continue
             if key == '*':
                 kept = {k: eng.harr(st, k, z3.ArraySort(I, eng.key_sort(k))) for k in self.keep_keys}
+                kept_at = []
+                for (k_, fn_) in self.keep_at:
+                    old_ = eng.harr(st, k_, z3.ArraySort(I, eng.key_sort(k_)))
+                    kept_at.append((k_, old_, list(fn_(LoopCtx(eng, entry, entry, fr, range_info)))))
                 eng.havoc_all(st)
                 for k, a_ in kept.items(): st.heap[k] = a_
+                for (k_, old_, refs_) in kept_at:
+                    arr = eng.harr(st, k_, old_.sort())
+                    for r in refs_: arr = z3.Store(arr, r, z3.Select(old_, r))
+                    st.heap[k_] = arr
+                st.ghost['kept_at'] = [(k_, refs_) for (k_, old_, refs_) in kept_at]
                 continue
             old = eng.harr(st, key, z3.ArraySort(I, eng.key_sort(key)))
             st.heap[key] = eng.fresh(key + '!h', old.sort())
         head = st.clone()
+        # objects created before the loop (locals carry negative references -1, -2, ...) belong to the loop frame too
+        head.ghost['alloc_watermark'] = next(eng.alloc)
         L = LoopCtx(eng, st, entry, fr, range_info)
         for (nm, g) in self.invariant(L):
             st.pc.append(g)
@@ -360,7 +387,15 @@ class LoopContract:
         raise Unsupported('havoc of %r' % (v,))
 
     def check_frame(self, eng, head, s2, n, fr):
+        wm = head.ghost.get('alloc_watermark', 0)
+        def frame_goal(new, old):
+            return QForall(lambda r: z3.Implies(r > -wm, z3.Select(new, r) == z3.Select(old, r)), 1, 'loop frame')
         if '*' in self.modifies:
+            for (key, refs) in head.ghost.get('kept_at', []):
+                h = head.heap.get(key); arr = s2.heap.get(key)
+                if h is None or arr is None or h is arr or h.eq(arr): continue
+                for ri, r in enumerate(refs):
+                    eng.obligations.append(Obligation('loop-frame[%s]:%s@kept#%d' % (self.ordinal, key, ri), s2.pc, z3.Select(arr, r) == z3.Select(h, r), 'frame', eng.where(n, fr), info={'fn': fr.qname}))
             for key in self.keep_keys:
                 h = head.heap.get(key); arr = s2.heap.get(key)
                 if h is None or arr is None or h is arr or h.eq(arr): continue
@@ -412,11 +447,15 @@ class LoopCtx:
 
 class Registry:
     def __init__(self):
-        self.contracts = []; self.loops = {}; self.lemmas = []; self.extra = []
+        self.contracts = []; self.loops = {}; self.lemmas = []; self.extra = []; self.static = []
 
     def add(self, c): self.contracts.append(c); return c
     def add_loop(self, lc): self.loops[(lc.qname, lc.ordinal)] = lc; return lc
     def loop_contract(self, qname, ordinal): return self.loops.get((qname, ordinal))
+    def static_fact(self, fn):
+        """fn(eng) -> [(name, holds: bool, note)]: facts read off the AST of the current tree (type hierarchy, declarations)"""
+        self.static.append(fn)
+
     def lemma(self, name, prop, hyps, goal, note='', inputs=()):
         self.lemmas.append({'name': name, 'prop': prop, 'hyps': hyps, 'goal': goal, 'note': note, 'inputs': list(inputs)})
 
@@ -435,6 +474,7 @@ def param_value(eng, st, p, idx):
         return v
     r = z3.Int('obj_' + name)
     st.pc.append(r > 0)
+    st.pc.append(eng.root_of(r) > 0)      # passed in, hence not a part of an object this function creates
     return ObjLV(r, bt)
 
 
@@ -625,15 +665,21 @@ def check_function(eng, contract, result):
         eng.var_names[p['id']] = p.get('name')
     this = None
     is_static = d.get('storageClass') == 'static'
-    if d['kind'] in ('CXXMethodDecl', 'CXXConstructorDecl') and not is_static:
-        rec = eng.ast.owner_record(d)
+    d_this = d
+    if contract.lambda_ordinal is not None and getattr(contract, 'captures', None) is not None:
+        # a lambda capturing `this` and locals of the enclosing member function: `this` is the enclosing object, the captured
+        # locals are materialised on first use with arbitrary contents (lazy locals)
+        d_this = contract.outer_decl
+        is_static = d_this.get('storageClass') == 'static'
+    if d_this['kind'] in ('CXXMethodDecl', 'CXXConstructorDecl') and not is_static:
+        rec = eng.ast.owner_record(d_this)
         cname = eng.ast.record_display_name(rec)
         if eng.is_value_class(cname):
             key = 'param!this'
             st.env[key] = eng.fresh_value(TY.parse(cname), 'this')
             this = LocalLV(key)
         else:
-            r = z3.Int('obj_this'); st.pc.append(r > 0)
+            r = z3.Int('obj_this'); st.pc.append(r > 0); st.pc.append(eng.root_of(r) > 0)
             this = ObjLV(r, TY.parse(cname))
     saved_safety = eng.safety; eng.safety = set(contract.safety)
     saved_use = eng.use_contracts; eng.use_contracts = {c.qname: c for c in contract.use}
@@ -644,8 +690,16 @@ def check_function(eng, contract, result):
     saved_nl = eng.name_locals; eng.name_locals = contract.name_locals
     eng.split_heap_ifs = contract.split_heap_ifs
     nob0 = len(eng.obligations)
+    saved_lazy = eng.lazy_locals
     try:
         st.env.update(env)
+        if contract.lambda_ordinal is not None and getattr(contract, 'captures', None) is not None:
+            eng.lazy_locals = True
+            fr_c = Frame(d, this, qn, 1)
+            for cname_ in contract.captures:
+                vds = [x for x in eng.ast.by_id.values() if x.get('kind') in ('VarDecl', 'ParmVarDecl') and x.get('name') == cname_ and eng.enclosing_function(x['id']) is contract.outer_decl]
+                if len(vds) != 1: raise Unsupported('contract %s: %d variables named %s in %s' % (contract.name, len(vds), cname_, qn))
+                eng.ev({'kind': 'DeclRefExpr', 'referencedDecl': {'id': vds[0]['id'], 'kind': vds[0]['kind'], 'name': cname_, 'type': vds[0]['type']}, 'type': vds[0]['type']}, st, fr_c)
         if contract.setup: contract.setup(eng, st, args, this)
         pre_state = st.clone()
         C0 = Ctx(eng, d, args, this, pre_state)
@@ -711,6 +765,7 @@ def check_function(eng, contract, result):
         result['inputs'] = input_leaves(eng, args, this, pre_state)
         result['decl'] = d
     finally:
+        eng.lazy_locals = saved_lazy
         eng.safety = saved_safety; eng.use_contracts = saved_use; eng.max_depth = saved_depth; eng.name_locals = saved_nl
         eng.split_heap_ifs = False
         if contract.unroll: eng.unroll_limit = saved_unroll
